@@ -31,7 +31,7 @@ def run(ck):
     for sw in T.switches_on_expr(b, lambda e: e[0] == "discr"):
         if sw not in dl.blocks:
             continue
-        e = b.expr(b.blocks[sw]["term"]["on"])
+        e = b.expr(b.blocks[sw]["term"]["on"], at=sw)
         if e[2]["p"]:
             continue
         if any(r == rr and p[: len(pp)] == pp for r, p in b.resolve(dl.pe.args[0]) for rr, pp in b.resolve(e[2])):
